@@ -450,3 +450,65 @@ def corpus_order():
     # int twins: witness of the known finding int_enum_twin_order (int_enum.py.jinja emits the members in insertion order)
     out.append(("twin-int-enums", add_twin_enums(base({"Z": {"type": "object", "properties": {"z": {"type": "string"}}}}), random.Random(2), "integer")))
     return out
+
+
+# ================================================================ C12: failed attempts of the schema fix-point must leave no trace (ADDED functions only)
+def add_inline_before_forward(doc: dict, rng: random.Random, tag=""):
+    """Components that are NOT models - a union and an array - whose INLINE OBJECT member comes before a $ref to a component declared later,
+    a model with an allOf parent declared later that also has inline object property / additionalProperties, a model referencing them and
+    operations returning them.  The first parse attempt of such a component fails half way (the inline class already built); the retry must
+    start from the pre-attempt state.  `tag` keeps the names unique when used twice."""
+    sch = doc.setdefault("components", {}).setdefault("schemas", {})
+    n = lambda s: f"{s}{tag}"
+    if any(n(x) in sch for x in ("Outcome", "Batch", "Sack", "Success", "SackBase", "Envelope")):
+        return None
+    o = lambda **p: {"type": "object", "properties": p}
+    kw = rng.choice(["oneOf", "anyOf"])
+    new = {
+        n("Outcome"): {kw: [o(error={"type": "string"}, code={"type": "integer"}), _ref(n("Success"))]},
+        n("Batch"): {"type": "array", "items": {"oneOf": [o(note={"type": "string"}), _ref(n("Success"))]}},
+        n("Sack"): {"allOf": [_ref(n("SackBase")), {"type": "object", "properties": {"inl": o(a={"type": "string"}), "nxt": _ref(n("Success"))},
+                                                    "additionalProperties": o(b={"type": "integer"})}]},
+        n("Envelope"): o(outcome=_ref(n("Outcome")), batch=_ref(n("Batch")), sack=_ref(n("Sack"))),
+        n("Success"): o(value={"type": "integer"}),
+        n("SackBase"): o(base={"type": "string"}),
+    }
+    for k, v in new.items():     # declared with the forward references first
+        sch[k] = v
+    ok = lambda s: {"200": {"description": "ok", "content": {"application/json": {"schema": s}}}}
+    paths = doc.setdefault("paths", {})
+    paths[f"/outcome{tag.lower()}"] = {"get": {"operationId": f"get_outcome{tag.lower()}", "tags": ["results"], "responses": ok(_ref(n("Outcome")))}}
+    paths[f"/batch{tag.lower()}"] = {"post": {"operationId": f"post_batch{tag.lower()}", "tags": ["results"],
+                                              "requestBody": {"content": {"application/json": {"schema": _ref(n("Envelope"))}}}, "responses": ok(_ref(n("Batch")))}}
+    return list(new)
+
+
+def gen_document_c12(rng: random.Random, pressure=False):
+    """gen_document_order + (with probability 0.7) the inline-object-before-forward-$ref components, randomly placed."""
+    doc, feats = gen_document_order(rng, pressure=pressure)
+    feats = list(feats)
+    if rng.random() < 0.7:
+        if add_inline_before_forward(doc, rng):
+            feats.append("inline-before-forward-ref")
+            doc["components"]["schemas"] = _shuffled(doc["components"]["schemas"], rng)
+            doc["paths"] = _shuffled(doc["paths"], rng)
+    return doc, sorted(feats)
+
+
+def corpus_retry():
+    """Small fixed documents (tried under EVERY order of components.schemas x paths): a failed first attempt must not break the retry."""
+    base = lambda sch, paths=None: {"openapi": "3.1.0", "info": {"title": "t", "version": "1"}, "paths": paths or {}, "components": {"schemas": sch}}
+    o = lambda **p: {"type": "object", "properties": p}
+    ok = lambda s: {"200": {"description": "ok", "content": {"application/json": {"schema": s}}}}
+    out = []
+    out.append(("retry-union", base(
+        {"Result": {"oneOf": [o(error={"type": "string"}), _ref("Success")]}, "Holder": o(result=_ref("Result")), "Success": o(value={"type": "integer"})},
+        {"/result": {"get": {"operationId": "get_result", "tags": ["x"], "responses": ok(_ref("Result"))}}})))
+    out.append(("retry-array-of-union", base(
+        {"Batch": {"type": "array", "items": {"anyOf": [o(note={"type": "string"}), _ref("Later")]}}, "Holder": o(batch=_ref("Batch")), "Later": o(value={"type": "integer"})},
+        {"/batch": {"get": {"operationId": "get_batch", "tags": ["x"], "responses": ok(_ref("Batch"))}}})))
+    out.append(("retry-allof-inline", base(
+        {"Sack": {"allOf": [_ref("SackBase"), {"type": "object", "properties": {"inl": o(a={"type": "string"}), "nxt": _ref("Later")}, "additionalProperties": o(b={"type": "integer"})}]},
+         "Later": o(value={"type": "integer"}), "SackBase": o(base={"type": "string"})},
+        {"/sack": {"get": {"operationId": "get_sack", "tags": ["x"], "responses": ok(_ref("Sack"))}}})))
+    return out
